@@ -400,7 +400,46 @@ func (x *extractor) inline(sc *scope, decl *ast.FuncDecl, call *ast.CallExpr) []
 	return out
 }
 
+// calleeName: "copy", "slices.Sort", ... for plain and package-qualified callees, "" otherwise.
+func calleeName(call *ast.CallExpr) string {
+	switch f := call.Fun.(type) {
+	case *ast.Ident:
+		if f.Obj == nil {
+			return f.Name
+		}
+	case *ast.SelectorExpr:
+		if id, ok := f.X.(*ast.Ident); ok && id.Obj == nil {
+			return id.Name + "." + f.Sel.Name
+		}
+	}
+
+	return ""
+}
+
 func (x *extractor) call(sc *scope, call *ast.CallExpr, resultUsed bool) []stmt {
+	// library functions that write through their first argument: a write of the guarded field / tracked object
+	if n := calleeName(call); (inPlace[n] || inPlaceMore[n]) && len(call.Args) > 0 {
+		if f, _, ok := x.guardedRoot(sc, call.Args[0]); ok {
+			out := x.args(sc, call.Args[1:])
+
+			if x.isPtr[f] {
+				l, ld := x.loadPtr(f)
+
+				return append(out, ld, ev(fmt.Sprintf("EObjWrite %d", l)))
+			}
+
+			if id, known := x.varID[f]; known {
+				return append(out, ev(fmt.Sprintf("ERead %d", id)), ev(fmt.Sprintf("EWrite %d", id)))
+			}
+
+			return append(out, unsupported(x.pos(call)+": in-place write through a mutex / unknown field"))
+		}
+
+		if l, ok := x.trackedLocal(sc, rootExpr(call.Args[0])); ok {
+			return append(x.args(sc, call.Args[1:]), ev(fmt.Sprintf("EObjWrite %d", l)))
+		}
+	}
+
 	switch fun := call.Fun.(type) {
 	case *ast.SelectorExpr:
 		name := fun.Sel.Name
@@ -974,6 +1013,12 @@ var inPlace = map[string]bool{ // stdlib functions that write through their firs
 	"sort.Ints": true,
 }
 
+// further library functions that may write into the backing array of their first argument
+var inPlaceMore = map[string]bool{
+	"slices.DeleteFunc": true, "slices.Delete": true, "slices.Insert": true, "slices.Compact": true,
+	"slices.CompactFunc": true, "slices.Replace": true,
+}
+
 // mutators computes, for every method of type typ in files, whether it may write memory reachable from its receiver.
 func mutators(files []*ast.File, typ string) map[string]bool {
 	decls := map[string]*ast.FuncDecl{}
@@ -1300,17 +1345,26 @@ func main() {
 						ptrElem[n] = [2]string{imports[id.Name], sel.Sel.Name}
 					}
 				}
+
+				if id, ok := el.(*ast.Ident); ok {
+					ptrElem[n] = [2]string{"", id.Name} // a type of the same package
+				}
 			}
 		}
 	}
 
 	// --- mutating methods of the types behind the pointer fields
 	for _, pe := range ptrElem {
-		if !strings.HasPrefix(pe[0], *module+"/") {
+		dir := filepath.Dir(path)
+
+		switch {
+		case pe[0] == "":
+		case strings.HasPrefix(pe[0], *module+"/"):
+			dir = filepath.Join(*repo, strings.TrimPrefix(pe[0], *module+"/"))
+		default:
 			continue
 		}
 
-		dir := filepath.Join(*repo, strings.TrimPrefix(pe[0], *module+"/"))
 		for m, isMut := range mutators(parseDir(fset, dir), pe[1]) {
 			x.objKnown[m] = true
 			x.objMethods[m] = x.objMethods[m] || isMut
@@ -1391,12 +1445,17 @@ func main() {
 
 		x.localNames = nil
 		sc := &scope{env: map[*ast.Object]int{}}
+		_, ptrRecv := fd.Recv.List[0].Type.(*ast.StarExpr)
 
 		if len(fd.Recv.List[0].Names) == 1 {
 			sc.recv = fd.Recv.List[0].Names[0].Obj
 		}
 
 		body := prune(x.block(sc, fd.Body.List))
+		if !ptrRecv {
+			body = append([]stmt{unsupported(x.pos(fd) + ": value receiver (the call copies the guarded struct)")}, body...)
+		}
+
 		entries = append(entries, m)
 		locals[m] = x.localNames
 		allSt[m] = body
